@@ -36,6 +36,8 @@ fn random_sched(seed: u64, world: usize, params: &[SchedParams]) -> Box<dyn Sche
             rng: Rng::new(mix(&[seed, 0x5c4ed, world as u64, r as u64])),
             p: p.clone(),
             mids_this_poll: 0,
+            burst_left: 0,
+            fired_burst: false,
         })
         .collect();
     Box::new(RandomScheduler {
@@ -146,7 +148,8 @@ pub fn evaluate(
             if let Some(v) = oracle::check_run(prop, case, built, &d.events, 0, rs) {
                 return Some(v);
             }
-            if prop == Prop::C06 && vt_exact && !has_step_cap(&d.events) {
+            let _ = vt_exact;
+            if prop == Prop::C06 && d.vt_ok[0] && !has_step_cap(&d.events) {
                 let t = oracle::digest(&d.events, 0, built.n);
                 if let Some(v) = oracle::check_c06_makespan(built, &t, rs, d.makespan[0]) {
                     return Some(v);
